@@ -15,6 +15,7 @@ import (
 	"go/token"
 	"go/types"
 	"math/big"
+	"net/url"
 	"regexp"
 	"sort"
 	"strconv"
@@ -342,6 +343,7 @@ type analyzer struct {
 	noInline   map[*ssa.Function]bool
 	stack      []*ssa.Function
 	allowRecursion bool // bounded by maxDepth (structural recursion over a finite chain)
+	snapshots  bool                   // returned pointers to fresh allocations carry a snapshot of the pointee (ptrOf)
 	regex      map[*ssa.Global]string // package-level regexps with a constant pattern (load gives "regexp:<pattern>")
 }
 
@@ -447,6 +449,11 @@ func (an *analyzer) run(fn *ssa.Function, params []aval, free []aval, depth int)
 		e, ok := escaped[al]
 		if !ok {
 			e = allocEscapes(al)
+			if e && an.snapshots && onlyFreshEscapes(al, 0) {
+				// the address only flows into fresh allocations of this activation and to the
+				// caller at return: until then this function's stores are the only writes
+				e = false
+			}
 			escaped[al] = e
 		}
 		return e
@@ -559,6 +566,12 @@ func (an *analyzer) run(fn *ssa.Function, params []aval, free []aval, depth int)
 						nv = bot
 					} else if a.k == kNonNil && a.alloc != nil && a.n == 0 {
 						nv = aval{k: kNonNil, alloc: a.alloc, n: x.Field + 1} // n-1 = field index within the cell
+					} else if a.k == kNonNil && a.ptrOf != nil && a.ptrOf.k == kStruct && x.Field < len(a.ptrOf.elems) {
+						e := a.ptrOf.elems[x.Field]
+						if e.k == kBot {
+							e = top
+						}
+						nv = aval{k: kNonNil, ptrOf: &e}
 					} else {
 						nv = aval{k: kNonNil}
 					}
@@ -650,6 +663,9 @@ func (an *analyzer) run(fn *ssa.Function, params []aval, free []aval, depth int)
 				case *ssa.Store:
 					a := get(x.Addr)
 					v := get(x.Val)
+					if a.ptrOf != nil {
+						res.hazards = append(res.hazards, hazard{ins, ins, "store through a snapshot pointer (not modelled)"})
+					}
 					if a.k == kNonNil && a.alloc != nil && v.k != kBot {
 						al := a.alloc
 						idx := a.n - 1
@@ -822,6 +838,9 @@ func (an *analyzer) run(fn *ssa.Function, params []aval, free []aval, depth int)
 					dead := false
 					for _, r := range x.Results {
 						v := get(r)
+						if an.snapshots && v.k == kNonNil && v.alloc != nil && v.n == 0 && v.ptrOf == nil {
+							v = snapshotOf(v.alloc, mem, res.execBlock, 0)
+						}
 						if v.k == kBot {
 							dead = true
 						}
@@ -1158,6 +1177,9 @@ func (an *analyzer) call(x *ssa.Call, get func(ssa.Value) aval, depth int, res *
 	if v, ok := an.funcArgModel(sc, args, depth, res, x); ok {
 		return v
 	}
+	if v, ok := getterModel(sc, args); ok {
+		return v
+	}
 	if v, ok := libModel(sc, c, args, x); ok {
 		return v
 	}
@@ -1336,6 +1358,114 @@ func libModel(sc *ssa.Function, c *ssa.CallCommon, args []aval, site *ssa.Call) 
 			return cStr(strings.TrimSuffix(a, b)), true
 		}
 		return top, true
+	case "(*regexp.Regexp).MatchString", "(*regexp.Regexp).FindStringSubmatchIndex", "(*regexp.Regexp).FindStringSubmatch", "(*regexp.Regexp).FindString":
+		pat := ""
+		if len(args) == 2 {
+			for _, n := range args[0].notes {
+				if strings.HasPrefix(n, "regexp:") {
+					pat = strings.TrimPrefix(n, "regexp:")
+				}
+			}
+		}
+		if pat != "" && args[1].k == kConst && args[1].c.Kind() == constant.String {
+			if re, err := regexp.Compile(pat); err == nil {
+				in := constant.StringVal(args[1].c)
+				switch sc.Name() {
+				case "MatchString":
+					return cBool(re.MatchString(in)), true
+				case "FindString":
+					return cStr(re.FindString(in)), true
+				case "FindStringSubmatchIndex":
+					idx := re.FindStringSubmatchIndex(in)
+					if idx == nil {
+						return aval{k: kNil}, true
+					}
+					r := aval{k: kSlice, n: len(idx), elems: []aval{}}
+					for _, v := range idx {
+						r.elems = append(r.elems, cInt(int64(v)))
+					}
+					return r, true
+				case "FindStringSubmatch":
+					ms := re.FindStringSubmatch(in)
+					if ms == nil {
+						return aval{k: kNil}, true
+					}
+					r := aval{k: kSlice, n: len(ms), elems: []aval{}}
+					for _, v := range ms {
+						r.elems = append(r.elems, cStr(v))
+					}
+					return r, true
+				}
+			}
+		}
+		return aval{}, false
+	case "net/url.Parse":
+		if len(args) == 1 && args[0].k == kConst && args[0].c.Kind() == constant.String {
+			u, err := url.Parse(constant.StringVal(args[0].c))
+			if err != nil {
+				return aval{k: kTuple, tup: []aval{{k: kNil}, nonnil("url")}}, true
+			}
+			pt, ok := sc.Signature.Results().At(0).Type().(*types.Pointer)
+			if !ok {
+				return aval{}, false
+			}
+			st, ok := pt.Elem().Underlying().(*types.Struct)
+			if !ok {
+				return aval{}, false
+			}
+			strs := map[string]string{"Scheme": u.Scheme, "Opaque": u.Opaque, "Host": u.Host, "Path": u.Path, "RawPath": u.RawPath, "RawQuery": u.RawQuery, "Fragment": u.Fragment, "RawFragment": u.RawFragment}
+			bools := map[string]bool{"OmitHost": u.OmitHost, "ForceQuery": u.ForceQuery}
+			pointee := aval{k: kStruct}
+			for i := 0; i < st.NumFields(); i++ {
+				n := st.Field(i).Name()
+				if v, ok := strs[n]; ok {
+					pointee.elems = append(pointee.elems, cStr(v))
+				} else if v, ok := bools[n]; ok {
+					pointee.elems = append(pointee.elems, cBool(v))
+				} else if n == "User" && u.User == nil {
+					pointee.elems = append(pointee.elems, aval{k: kNil})
+				} else {
+					pointee.elems = append(pointee.elems, top)
+				}
+			}
+			return aval{k: kTuple, tup: []aval{{k: kNonNil, ptrOf: &pointee}, {k: kNil}}}, true
+		}
+		return aval{}, false
+	case "strings.Split":
+		if len(args) == 2 && args[0].k == kConst && args[1].k == kConst && args[0].c.Kind() == constant.String && args[1].c.Kind() == constant.String {
+			parts := strings.Split(constant.StringVal(args[0].c), constant.StringVal(args[1].c))
+			r := aval{k: kSlice, n: len(parts), elems: []aval{}}
+			for _, v := range parts {
+				r.elems = append(r.elems, cStr(v))
+			}
+			return r, true
+		}
+		return top, true
+	case "strings.TrimRight", "strings.TrimLeft", "strings.Trim":
+		if len(args) == 2 && args[0].k == kConst && args[1].k == kConst && args[0].c.Kind() == constant.String && args[1].c.Kind() == constant.String {
+			a, b := constant.StringVal(args[0].c), constant.StringVal(args[1].c)
+			switch full {
+			case "strings.TrimRight":
+				return cStr(strings.TrimRight(a, b)), true
+			case "strings.TrimLeft":
+				return cStr(strings.TrimLeft(a, b)), true
+			}
+			return cStr(strings.Trim(a, b)), true
+		}
+		return top, true
+	case "strings.CutSuffix", "strings.CutPrefix":
+		if len(args) == 2 && args[0].k == kConst && args[1].k == kConst && args[0].c.Kind() == constant.String && args[1].c.Kind() == constant.String {
+			a, b := constant.StringVal(args[0].c), constant.StringVal(args[1].c)
+			var r string
+			var ok bool
+			if full == "strings.CutSuffix" {
+				r, ok = strings.CutSuffix(a, b)
+			} else {
+				r, ok = strings.CutPrefix(a, b)
+			}
+			return aval{k: kTuple, tup: []aval{cStr(r), cBool(ok)}}, true
+		}
+		return aval{k: kTuple, tup: []aval{top, top}}, true
 	case "fmt.Sprintf":
 		if len(args) == 2 && args[0].k == kConst && args[0].c.Kind() == constant.String && (args[1].k == kNil || (args[1].k == kSlice && (args[1].elems != nil || args[1].n == 0))) {
 			var goArgs []any
@@ -1726,4 +1856,167 @@ func errorfVerbs(f aval) []byte {
 		out = append(out, s[i])
 	}
 	return out
+}
+
+// zeroOf: the abstract zero value of a type.
+func zeroOf(t types.Type) aval {
+	switch u := t.Underlying().(type) {
+	case *types.Basic:
+		switch {
+		case u.Info()&types.IsString != 0:
+			return cStr("")
+		case u.Info()&types.IsBoolean != 0:
+			return cBool(false)
+		case u.Info()&types.IsInteger != 0:
+			return cInt(0)
+		}
+		return top
+	case *types.Pointer, *types.Interface, *types.Slice, *types.Map, *types.Signature, *types.Chan:
+		return aval{k: kNil}
+	case *types.Struct:
+		r := aval{k: kStruct}
+		for i := 0; i < u.NumFields(); i++ {
+			r.elems = append(r.elems, zeroOf(u.Field(i).Type()))
+		}
+		return r
+	}
+	return top
+}
+
+// onlyFreshEscapes: the allocation is referenced only by field addressing with
+// loads/stores, loads, stores into it, returns, and stores of its address into
+// a field of another allocation of the same kind.
+func onlyFreshEscapes(al *ssa.Alloc, depth int) bool {
+	if depth > 3 || al.Referrers() == nil {
+		return false
+	}
+	for _, ref := range *al.Referrers() {
+		switch x := ref.(type) {
+		case *ssa.FieldAddr:
+			for _, r2 := range *x.Referrers() {
+				switch y := r2.(type) {
+				case *ssa.Store:
+					if y.Addr != ssa.Value(x) {
+						return false
+					}
+				case *ssa.UnOp, *ssa.DebugRef:
+				default:
+					return false
+				}
+			}
+		case *ssa.Store:
+			if x.Addr == ssa.Value(al) {
+				continue
+			}
+			fa, ok := x.Addr.(*ssa.FieldAddr)
+			if !ok {
+				return false
+			}
+			outer, ok := fa.X.(*ssa.Alloc)
+			if !ok || !onlyFreshEscapes(outer, depth+1) {
+				return false
+			}
+		case *ssa.UnOp, *ssa.DebugRef, *ssa.Return:
+		default:
+			return false
+		}
+	}
+	return true
+}
+
+// snapshotOf: the pointee of a fresh allocation at a return, as a value.
+func snapshotOf(al *ssa.Alloc, mem map[*ssa.Alloc][]aval, exec map[int]bool, depth int) aval {
+	if depth > 3 || !onlyFreshEscapes(al, 0) {
+		return aval{k: kNonNil}
+	}
+	elemT := al.Type().(*types.Pointer).Elem()
+	// fields with an executable store whose value is not yet known
+	stored := map[int]bool{}
+	for _, ref := range *al.Referrers() {
+		switch x := ref.(type) {
+		case *ssa.FieldAddr:
+			for _, r2 := range *x.Referrers() {
+				if st, ok := r2.(*ssa.Store); ok && exec[st.Block().Index] {
+					stored[x.Field] = true
+				}
+			}
+		case *ssa.Store:
+			if x.Addr == ssa.Value(al) && exec[x.Block().Index] {
+				stored[-1] = true
+			}
+		}
+	}
+	fix := func(v aval) aval {
+		if v.k == kNonNil && v.alloc != nil && v.n == 0 && v.ptrOf == nil {
+			return snapshotOf(v.alloc, mem, exec, depth+1)
+		}
+		return v
+	}
+	m := mem[al]
+	var pointee aval
+	if st, ok := elemT.Underlying().(*types.Struct); ok {
+		pointee = aval{k: kStruct, elems: make([]aval, st.NumFields())}
+		for i := 0; i < st.NumFields(); i++ {
+			switch {
+			case m != nil && i < len(m) && m[i].k != kBot:
+				pointee.elems[i] = fix(m[i])
+				if pointee.elems[i].k == kBot {
+					return bot
+				}
+			case stored[i] || stored[-1]:
+				return bot // the store has not been evaluated yet
+			default:
+				pointee.elems[i] = zeroOf(st.Field(i).Type())
+			}
+		}
+	} else {
+		switch {
+		case m != nil && len(m) == 1 && m[0].k != kBot:
+			pointee = fix(m[0])
+			if pointee.k == kBot {
+				return bot
+			}
+		case stored[-1]:
+			return bot
+		default:
+			pointee = zeroOf(elemT)
+		}
+	}
+	return aval{k: kNonNil, ptrOf: &pointee}
+}
+
+// getterModel: generated protobuf getters GetX on a nil receiver or on a
+// snapshot pointer return the zero value / the field X.
+func getterModel(sc *ssa.Function, args []aval) (aval, bool) {
+	if !strings.HasPrefix(sc.Name(), "Get") || len(args) != 1 || sc.Signature.Recv() == nil || sc.Signature.Results().Len() != 1 {
+		return aval{}, false
+	}
+	if pk := fnPkgPath(sc); !strings.HasPrefix(pk, fhirProtoPrefix) {
+		return aval{}, false
+	}
+	pt, ok := sc.Signature.Recv().Type().(*types.Pointer)
+	if !ok {
+		return aval{}, false
+	}
+	st, ok := pt.Elem().Underlying().(*types.Struct)
+	if !ok {
+		return aval{}, false
+	}
+	if args[0].k == kNil {
+		return zeroOf(sc.Signature.Results().At(0).Type()), true
+	}
+	if args[0].k != kNonNil || args[0].ptrOf == nil || args[0].ptrOf.k != kStruct {
+		return aval{}, false
+	}
+	want := strings.TrimPrefix(sc.Name(), "Get")
+	for i := 0; i < st.NumFields(); i++ {
+		if st.Field(i).Name() == want && i < len(args[0].ptrOf.elems) && types.Identical(st.Field(i).Type(), sc.Signature.Results().At(0).Type()) {
+			e := args[0].ptrOf.elems[i]
+			if e.k == kBot {
+				return top, true
+			}
+			return e, true
+		}
+	}
+	return aval{}, false
 }
